@@ -21,7 +21,7 @@ RECURSIVE Run(_, _, _)
 Run(S, list, i) ==
   IF i > Len(list) THEN S
   ELSE LET o == list[i]
-       IN Run(CASE o.k = "fruit" -> Fruit(S, 100, 1000 * i, 0).S
+       IN Run(CASE o.k = "fruit" -> Fruit(S, 100, 1000 * i, 0, 1000).S
                 [] o.k = "shower" -> Shower(S, o.n)
                 [] OTHER -> Stream(S, 100, 1000 * i, 50, o.evs), list, i + 1)
 Conv(take) == Run(Init(take, FALSE), src, 1)
